@@ -2,4 +2,4 @@ HOOK_COMMITS = ["d87235b"]  # H2 verifPoint (db/verif_points_{on,off}.go + one c
 NOT_APPLICABLE_REASON = {}
 
 # properties whose check is finished and registered in MANIFEST.json (others are listed under not_applicable until then)
-CLAIMED = ["C01", "C02", "C03", "C04", "C05", "C06", "C07", "C08", "C09", "C10", "C11", "C12", "C14", "C15", "C16", "C17", "C18", "C19", "C20"]
+CLAIMED = ["C01", "C02", "C03", "C04", "C05", "C06", "C07", "C08", "C09", "C10", "C11", "C12", "C13", "C14", "C15", "C16", "C17", "C18", "C19", "C20"]
